@@ -244,3 +244,84 @@ V1_CLASSES = {
     "v1_keyid_unknown": lambda r: J({"command": "getPubKey", "version": 1, "keyId": "m/44'/5'/0'/0/0"}),
     "v1_sign_auth_path": lambda r: J({"command": "sign", "version": 1, "keyId": PATHS["btc"], "message": "aa" * 32}),
 }
+
+
+# ---- spellings of otherwise valid hex fields (a validator and the code that later consumes the field may
+# ---- disagree on which spellings are hex): every hex-valued field x every spelling
+SPELLINGS = {
+    "0x": lambda h: "0x" + h,
+    "0X": lambda h: "0X" + h,
+    "upper": lambda h: h.upper(),
+    "mixed": lambda h: "".join(c.upper() if i % 3 == 0 else c for i, c in enumerate(h)),
+    "lead_space": lambda h: " " + h,
+    "trail_space": lambda h: h + " ",
+    "trail_newline": lambda h: h + "\n",
+    "inner_space": lambda h: h[:2] + " " + h[2:],
+    "inner_spaces_all": lambda h: " ".join(h[i:i + 2] for i in range(0, len(h), 2)) if len(h) < 400 else h[:2] + " " + h[2:],
+    "underscore": lambda h: h[:2] + "_" + h[2:],
+    "odd_0_prefixed": lambda h: "0" + h,
+    "fullwidth_digit": lambda h: "１" + h[1:],
+    "arabic_digit": lambda h: "١" + h[1:],
+}
+
+
+def _field_setters():
+    def adv_block(r, sp):
+        q = _adv(r, 2, [1, 0])[0]
+        q["blocks"][r.randrange(2)] = sp(q["blocks"][0])
+        return q
+
+    def adv_brother(r, sp):
+        q = _adv(r, 1, [2])[0]
+        q["brothers"][0][1] = sp(q["brothers"][0][1])
+        return q
+
+    def anc_block(r, sp):
+        bl = reqs.blocks(r, 2, False)
+        q = {"version": 5, "command": "updateAncestorBlock", "blocks": [b["raw"].hex() for b in bl]}
+        q["blocks"][1] = sp(q["blocks"][1])
+        return q
+
+    def msg(field, segwit=False):
+        def f(r, sp):
+            q = _sign_tx(r, segwit=segwit)
+            q["message"][field] = sp(q["message"][field])
+            return q
+        return f
+
+    def receipt(r, sp):
+        q = _sign_tx(r)
+        q["auth"]["receipt"] = sp(q["auth"]["receipt"])
+        return q
+
+    def proof(r, sp):
+        q = _sign_tx(r)
+        q["auth"]["receipt_merkle_proof"][-1] = sp(q["auth"]["receipt_merkle_proof"][-1])
+        return q
+
+    def hsh(r, sp):
+        q = reqs.make("sign_hash", r)[0]
+        q["message"]["hash"] = sp(q["message"]["hash"])
+        return q
+
+    def ud(cmd):
+        def f(r, sp):
+            q = reqs.make(cmd, r)[0]
+            q["udValue"] = sp(q["udValue"])
+            return q
+        return f
+    return {"adv_block": adv_block, "adv_brother": adv_brother, "anc_block": anc_block, "tx": msg("tx"),
+            "witness_script": msg("witnessScript", True), "receipt": receipt, "proof_node": proof, "hash": hsh,
+            "signer_ud": ud("signerHeartbeat"), "ui_ud": ud("uiHeartbeat")}
+
+
+def _spell_class(setter, sp):
+    return lambda r: J(setter(r, sp))
+
+
+for _f, _setter in _field_setters().items():
+    for _s, _sp in SPELLINGS.items():
+        CLASSES["spell_%s_%s" % (_f, _s)] = _spell_class(_setter, _sp)
+for _s, _sp in SPELLINGS.items():
+    V1_CLASSES["v1_spell_message_%s" % _s] = (lambda sp: lambda r: J((lambda q: dict(q, message=sp(q["message"])))(
+        reqs.make("sign_v1", r, 1)[0])))(_sp)
